@@ -51,10 +51,15 @@ def install(eng):
 
     vc.f_statepath = z3.Function("StatePath", B.sort(), vc.Path.sort())
     eng.fn("StatePath")(lambda e, st, b: V(vc.Path, vc.f_statepath(b.z)))
+    # StatePath(b) is BY DEFINITION <working_dir>/.gwf/<backend name>-backend-tracked.json (C08: the file of THIS
+    # backend in THIS project's state directory); the body of _get_state_path is verified against it
+    b_ = B.fresh("b")
+    f_bwd, f_bname = eng.const_fn("Backend", "working_dir", vc.Path), eng.const_fn("Backend", "name", vc.Name)
+    eng.axiom("statepath", z3.ForAll([b_], vc.f_statepath(b_) == vc.f_join(
+        vc.f_join(f_bwd(b_), vc.f_path_of_str(z3.StringVal(".gwf"))),
+        vc.f_path_of_str(z3.Concat(eng.to_str(V(vc.Name, f_bname(b_))).z, z3.StringVal("-backend-tracked.json"))))))
     eng.contract("gwf.backends.base:TrackingBackend._get_state_path", self_type=B, params={"self": B},
-                 returns=vc.Path, returns_expr="StatePath(self)", trusted=True, pure=True,
-                 note="join(working_dir, '.gwf', name + '-backend-tracked.json'): a function of the backend's "
-                      "constants (string level not modelled here)")
+                 returns=vc.Path, returns_expr="StatePath(self)", pure=True, uses=["statepath"], serves=["C08", "C09"])
     S89 = ["C08", "C09"]
     eng.contract("gwf.backends.base:TrackingBackend._init_tracked", self_type=B, params={"self": B},
                  returns=vc.TrackedT,
